@@ -202,6 +202,11 @@ func c04Ops() []c04Op {
 	for _, off := range []string{"+02:00", "+01:60", "-00:00", "+00:00", "-09:30"} {
 		add("Decode(TIFF OffsetTime "+off+")", dec(tiffWithOffset(off, II)))
 	}
+	add("Decode(PNG: recognised type without a decoder behind Decode)", dec(byName["png-rich-MM"]))
+	add("Decode(GIF header: recognised, unsupported) + Decode(unrecognised bytes)", func() {
+		dec([]byte("GIF89a\x10\x00\x10\x00\x80\x00\x00\x00\x00\x00\xff\xff\xff,\x00\x00\x00\x00\x10\x00\x10\x00\x00\x02\x0e\x84\x8f\xa9\xcb\xed\x0f\xa3\x9c\xb4\xda\x8b\xb3\x3e\x05\x00;"))()
+		dec(bytes.Repeat([]byte("not an image. "), 20))()
+	})
 	add("DecodeJPEG(rich)", func() { mc.Guard(func() { imagemeta.DecodeJPEG(bytes.NewReader(byName["jpeg-rich-II"])) }) })
 	add("DecodePng(rich)", func() { mc.Guard(func() { imagemeta.DecodePng(bytes.NewReader(byName["png-rich-MM"])) }) })
 	add("DecodeCR3(rich)", func() { mc.Guard(func() { imagemeta.DecodeCR3(bytes.NewReader(byName["cr3-rich-II"])) }) })
@@ -333,6 +338,61 @@ type c04Victim struct {
 	what  string
 	data  []byte
 	entry int
+	run   func() string // set for victims that are not one entry point on one input
+}
+
+// reentrantSource delivers b and, inside its at-th Read, runs another complete call:
+// a decode started while another decode is in progress on the same goroutine
+// (a reader layered on a file that is itself identified by decoding).
+type reentrantSource struct {
+	r     *bytes.Reader
+	reads int
+	at    int
+	inner func() string
+	out   string
+}
+
+func (s *reentrantSource) Read(p []byte) (int, error) {
+	s.reads++
+	if s.reads == s.at {
+		s.out = s.inner()
+	}
+	return s.r.Read(p)
+}
+func (s *reentrantSource) Seek(o int64, w int) (int64, error) { return s.r.Seek(o, w) }
+
+func c04Reentrant() []c04Victim {
+	by := map[string][]byte{}
+	for _, s := range seeds() {
+		by[s.name] = s.doc.B
+	}
+	type call struct {
+		name string
+		f    func(r io.ReadSeeker) string
+		in   string
+	}
+	calls := []call{
+		{"Decode(tiff-rich-II)", func(r io.ReadSeeker) string { return exifOutcome(imagemeta.Decode(r)) }, "tiff-rich-II"},
+		{"Decode(jpeg-rich-II)", func(r io.ReadSeeker) string { return exifOutcome(imagemeta.Decode(r)) }, "jpeg-rich-II"},
+		{"DecodeCR3(cr3-rich-II)", func(r io.ReadSeeker) string { return exifOutcome(imagemeta.DecodeCR3(r)) }, "cr3-rich-II"},
+		{"DecodePng(png-rich-MM)", func(r io.ReadSeeker) string { return exifOutcome(imagemeta.DecodePng(r)) }, "png-rich-MM"},
+		{"exif2.Parse(tiff-rich-MM)", func(r io.ReadSeeker) string { return exifOutcome(exif2.Parse(r)) }, "tiff-rich-MM"},
+	}
+	var out []c04Victim
+	for _, o := range calls {
+		for _, in := range calls {
+			for _, at := range []int{1, 2, 3} {
+				o, in, at := o, in, at
+				out = append(out, c04Victim{what: fmt.Sprintf("%s whose source runs %s inside its Read number %d", o.name, in.name, at), entry: -1,
+					run: func() string {
+						src := &reentrantSource{r: bytes.NewReader(by[o.in]), at: at, inner: func() string { return in.f(bytes.NewReader(by[in.in])) }}
+						res := o.f(src)
+						return "outer: " + res + " inner: " + src.out
+					}})
+			}
+		}
+	}
+	return out
 }
 
 type scriptChooser struct {
@@ -360,8 +420,9 @@ func c04Victims(tier string) []c04Victim {
 	var out []c04Victim
 	all, gs := seeds(), genSeeds()
 	for _, p := range seedEntryPairs(all) {
-		out = append(out, c04Victim{"seed " + all[p.s].name, all[p.s].doc.B, p.e})
+		out = append(out, c04Victim{"seed " + all[p.s].name, all[p.s].doc.B, p.e, nil})
 	}
+	out = append(out, c04Reentrant()...)
 	stride := 7
 	if tier == "thorough" {
 		stride = 1
@@ -372,14 +433,14 @@ func c04Victims(tier string) []c04Victim {
 			continue
 		}
 		for k := (len(s.doc.B) % stride); k < len(s.doc.B); k += stride {
-			out = append(out, c04Victim{fmt.Sprintf("seed %s cut at %d", s.name, k), s.doc.B[:k], p.e})
+			out = append(out, c04Victim{fmt.Sprintf("seed %s cut at %d", s.name, k), s.doc.B[:k], p.e, nil})
 		}
 	}
 	// single-field records in degenerate shapes (parsed while the tag buffer is empty)
 	dg := degenerateRecords()
 	for _, p := range seedEntryPairs(dg) {
 		if entryPoints[p.e].alloc {
-			out = append(out, c04Victim{"seed " + dg[p.s].name, dg[p.s].doc.B, p.e})
+			out = append(out, c04Victim{"seed " + dg[p.s].name, dg[p.s].doc.B, p.e, nil})
 		}
 	}
 	// single-field malformations
@@ -400,7 +461,7 @@ func c04Victims(tier string) []c04Victim {
 				}
 				for ei := range entryPoints {
 					if entryPoints[ei].alloc && (entryPoints[ei].accepts(s.kind) || ei == 0) {
-						out = append(out, c04Victim{fmt.Sprintf("seed %s with %v", s.name, what), d.B, ei})
+						out = append(out, c04Victim{fmt.Sprintf("seed %s with %v", s.name, what), d.B, ei, nil})
 					}
 				}
 			}
@@ -440,11 +501,21 @@ func c04Harness(tier string, depth int) mc.Harness {
 		n := 0
 		for i := ch * c04Chunk; i < (ch+1)*c04Chunk && i < len(victims); i++ {
 			v := victims[i]
-			e := &entryPoints[v.entry]
-			pristine()
-			base := runEntry(e, envio.New(v.data), false)
-			c04Replay(st.hist)
-			res := runEntry(e, envio.New(v.data), false)
+			var e *roEntry
+			var base, res roRun
+			if v.run != nil {
+				e = &roEntry{name: "re-entrant call"}
+				pristine()
+				base.pi = mc.Guard(func() { base.outcome = v.run() })
+				c04Replay(st.hist)
+				res.pi = mc.Guard(func() { res.outcome = v.run() })
+			} else {
+				e = &entryPoints[v.entry]
+				pristine()
+				base = runEntry(e, envio.New(v.data), false)
+				c04Replay(st.hist)
+				res = runEntry(e, envio.New(v.data), false)
+			}
 			n++
 			bs, rs := base.outcome, res.outcome
 			if base.pi != nil {
